@@ -220,6 +220,10 @@ func clipRings(box orb.Bound, rings []orb.Ring) (open []orb.LineString, closed [
 
 	at := 0
 	for _, ls := range result {
+		if len(ls) == 2 && ls[0] == ls[1] && pointSide(box, ls[0]) != notOnSide {
+			continue // zero-length touch of the boundary, encloses nothing
+		}
+
 		// closed ring, so completely inside bound
 		// unless it touches a boundary
 		if ls[0] == ls[len(ls)-1] && pointSide(box, ls[0]) == notOnSide {
